@@ -27,6 +27,11 @@ type variant struct {
 	Replace string   `json:"replace"`
 	Expect  string   `json:"expect"`
 	Note    string   `json:"note"`
+	Extra   *struct {
+		File    string `json:"file"`
+		Find    string `json:"find"`
+		Replace string `json:"replace"`
+	} `json:"extra,omitempty"`
 }
 
 func loadVariants(verif string) ([]variant, error) {
@@ -49,7 +54,23 @@ func overlayFor(repo string, v variant) (map[string][]byte, bool) {
 		return nil, false
 	}
 	nb := bytes.Replace(b, []byte(v.Find), []byte(v.Replace), 1)
-	return map[string][]byte{path: nb}, true
+	ov := map[string][]byte{path: nb}
+	if v.Extra != nil {
+		p2 := filepath.Join(repo, v.Extra.File)
+		b2, ok := ov[p2]
+		if !ok {
+			var err error
+			b2, err = os.ReadFile(p2)
+			if err != nil {
+				return nil, false
+			}
+		}
+		if !bytes.Contains(b2, []byte(v.Extra.Find)) {
+			return nil, false
+		}
+		ov[p2] = bytes.Replace(b2, []byte(v.Extra.Find), []byte(v.Extra.Replace), 1)
+	}
+	return ov, true
 }
 
 type selfResult struct {
